@@ -42,5 +42,26 @@ func (s *Scanner) VerifState() string {
 		s.isDirectiveParameterHasTypeOrAnyOrEmpty(),
 		s.isDirectiveParameterHasAnyOrEmpty(),
 		s.isDirectiveParameterHasRegexNotation())
+	// every other scalar field of the scanner (flags, counters), whatever it is called: found by reflection so that a
+	// field added later is part of the state as well
+	v := reflect.ValueOf(s).Elem()
+	t := v.Type()
+	for i := 0; i < t.NumField(); i++ {
+		switch t.Field(i).Name {
+		case "data", "file", "step", "stepStack", "finds", "stack", "lastDirectiveParameters", "curIndex", "dataSize":
+			continue
+		}
+		f := v.Field(i)
+		switch f.Kind() { //nolint:exhaustive // scalars only
+		case reflect.Bool:
+			fmt.Fprintf(&b, "|%s=%v", t.Field(i).Name, f.Bool())
+		case reflect.Int, reflect.Int8, reflect.Int16, reflect.Int32, reflect.Int64:
+			fmt.Fprintf(&b, "|%s=%d", t.Field(i).Name, f.Int())
+		case reflect.Uint, reflect.Uint8, reflect.Uint16, reflect.Uint32, reflect.Uint64:
+			fmt.Fprintf(&b, "|%s=%d", t.Field(i).Name, f.Uint())
+		case reflect.String:
+			fmt.Fprintf(&b, "|%s=%q", t.Field(i).Name, f.String())
+		}
+	}
 	return b.String()
 }
